@@ -2,8 +2,9 @@
    FramePool.Get / FramePool.Release call site and every hand-over of a *Frame between
    goroutines, as an interleaving transition system.
 
-   Go code modelled (as repaired by the fix: commit "dispatchInbound releases the fragment the
-   reader still holds"):
+   Go code modelled (as repaired by fix commit 4433c97 "dispatchInbound releases the fragment
+   the reader still holds when the method cannot be read"; [step true] keeps the pinned
+   behaviour of that one site):
      connection.go   readFrames / handleFrameNoRelay / handleFrameRelay, writeFrames,
                      sendMessage, SendSystemError, recvMessage
      inbound.go      handleCallReq, handleCallReqContinue, dispatchInbound (readMethod failure),
